@@ -53,7 +53,14 @@ let go calls unavail tape (fields : bool) =
     let sizes = List.concat_map (fun (_, tr) -> List.map (fun w -> string_of_int (List.length w)) tr) res in
     "r=" ^ String.concat "," sizes ^ "|" ^
     (if fields then String.concat ";" (List.map (fun (o, _) -> show_out o) res)
-     else "fresh=" ^ (if List.for_all (fun (_, tr) -> List.exists (fun w -> w <> []) tr) res then "yes" else "no") ^ ",distinct=yes")
+     else
+       (* a hedged signature is a function of (key, message, randomizer): calls whose
+          windows are equal give equal signatures, calls with pairwise distinct windows
+          are expected to differ (C20 section 11) *)
+       let ws = List.map (fun (_, tr) -> tr) res in
+       let rec nodup = function [] -> true | x :: r -> not (List.mem x r) && nodup r in
+       "fresh=" ^ (if List.for_all (fun (_, tr) -> List.exists (fun w -> w <> []) tr) res then "yes" else "no") ^
+       ",distinct=" ^ (if nodup ws then "yes" else "no"))
 let handle line =
   let f = Array.of_list (String.split_on_char '|' line) in
   let n = Array.length f in
